@@ -91,4 +91,42 @@ MUTANTS = [
       (DIAM, "                self.sigma[t1,t2] = (d1 + d2)/2.0", "                if self.sigma[t1,t2] is None or t1==t2: self.sigma[t1,t2] = (d1 + d2)/2.0")),
     M('dens-check-skips', ['C15'],
       (DENS, "        self.density.check()", "        if self.density[self.types[0]] is None: self.density.check()")),
+    # ------------------------------------------------------------------ C09 closures (C03 core)
+    M('py-hc-branch-minus-one', ['C09', 'C03'],
+      ('pyPRISM/closure/PercusYevick.py', "            self.value = -1 - gamma\n", "            self.value = -1 - 0*gamma\n")),
+    M('hnc-hc-drops-gamma-outside', ['C09'],
+      ('pyPRISM/closure/HyperNettedChain.py', "            self.value[mask] = np.exp(gamma[mask] - self.potential[mask]) - 1.0 - gamma[mask]", "            self.value[mask] = np.exp(gamma[mask] - self.potential[mask]) - 1.0")),
+    M('py-one-plus-gamma-nonhc', ['C09'],
+      ('pyPRISM/closure/PercusYevick.py', "            self.value = (np.exp(-self.potential)-1.0)*(1.0+gamma)", "            self.value = (np.exp(-self.potential)-1.0)*(1.0+np.abs(gamma))")),
+    M('msa-core-mask-ge', ['C09', 'C03'],
+      ('pyPRISM/closure/MeanSphericalApproximation.py', "            mask = r>self.sigma", "            mask = r>=self.sigma")),
+    M('ms-core-mask-ge', ['C09'],
+      ('pyPRISM/closure/MartynovSarkisov.py', "            mask = r>self.sigma", "            mask = r>=self.sigma")),
+    M('hnc-clips-large-gamma', ['C09'],
+      ('pyPRISM/closure/HyperNettedChain.py', "            self.value = np.exp(gamma - self.potential) - 1.0 - gamma", "            self.value = np.exp(np.minimum(gamma - self.potential,20.0)) - 1.0 - gamma")),
+    M('py-normalises-gamma-inplace', ['C09'],
+      ('pyPRISM/closure/PercusYevick.py', "        if self.apply_hard_core:\n            assert self.sigma", "        if len(gamma)>1 and gamma[0]>40: gamma[0] = 40\n        if self.apply_hard_core:\n            assert self.sigma")),
+    M('msa-global-shift', ['C09'],
+      ('pyPRISM/closure/MeanSphericalApproximation.py', "            self.value = -self.potential\n", "            self.value = -(self.potential - (self.potential[-1] if abs(self.potential[-1])<1e-2 else 0.0))\n")),
+    # ------------------------------------------------------------------ C10 potentials
+    M('lj-shift-sign', ['C10'],
+      ('pyPRISM/potential/LennardJones.py', "                magnitude -= self.funk(self.rcut,self.sigma)", "                magnitude += self.funk(self.rcut,self.sigma)")),
+    M('wca-cut-cube-root', ['C10'],
+      ('pyPRISM/potential/WeeksChandlerAndersen.py', "self.rcut = self.sigma * 2**(1.0/6.0)", "self.rcut = self.sigma * 2**(1.0/3.0)")),
+    M('hclj-core-strict', ['C10', 'C03'],
+      ('pyPRISM/potential/HardCoreLennardJones.py', "magnitude[r<=self.sigma] = self.high_value", "magnitude[r<self.sigma] = self.high_value")),
+    M('exp-ignores-high-value', ['C10'],
+      ('pyPRISM/potential/Exponential.py', "magnitude = np.where(r>self.sigma,magnitude,self.high_value)", "magnitude = np.where(r>self.sigma,magnitude,1e6)")),
+    M('lj-cut-inclusive', ['C10'],
+      ('pyPRISM/potential/LennardJones.py', "            magnitude[r>self.rcut] = 0.0", "            magnitude[r>=self.rcut*1.0000001] = 0.0")),
+    M('hs-sorts-r', ['C10'],
+      ('pyPRISM/potential/HardSphere.py', "        magnitude = self.funk(r,self.sigma)", "        r.sort()\n        magnitude = self.funk(r,self.sigma)")),
+    M('prism-sigma-default-one-diameter', ['C10', 'C16'],
+      (PRISM, "                    U.sigma = self.sys.diameter[t1,t2]", "                    U.sigma = self.sys.diameter[t1]")),
+    M('prism-no-snap', ['C10'],
+      (PRISM, "                U.sigma = self._snap_to_grid(U.sigma)\n", "")),
+    M('prism-snap-closure-only-diagonal', ['C10'],
+      (PRISM, "self.sys.closure[t1,t2].sigma = self._snap_to_grid(self.sys.diameter[t1,t2])", "self.sys.closure[t1,t2].sigma = self._snap_to_grid(self.sys.diameter[t1,t2]) if t1==t2 else self.sys.diameter[t1,t2]")),
+    M('prism-explicit-sigma-overridden', ['C10', 'C16'],
+      (PRISM, "                if U.sigma is None:\n                    U.sigma = self.sys.diameter[t1,t2]\n                # a contact", "                if U.sigma is None or t1!=t2:\n                    U.sigma = self.sys.diameter[t1,t2]\n                # a contact")),
 ]
